@@ -56,10 +56,14 @@ Couple(pat, n) ==
                         \o <<[cid |-> "pT", rel |-> "le", lhs |-> St(n, TF), rhs |-> CI(20)]>>
 ParentObj(pat, n) == IF pat = "time" THEN <<Times(CI(3), St(n, TF))>> ELSE <<>>
 
+\* clones of one template get their own parameter values (set_value on the clone): shift the values of clone i by i-1
+ShiftParams(d, k) == [d EXCEPT !.params = Tup([j \in 1..Len(d.params) |-> [kind |-> d.params[j].kind,
+                                              val |-> Tup([c \in 1..Len(d.params[j].val) |-> Add(d.params[j].val[c], R(k))])]])]
 MkMulti(s) ==
   LET n == Len(s.kinds)
-  IN [stages |-> Tup([i \in 1..n |-> StageDecl(IF s.clone THEN s.kinds[1] ELSE s.kinds[i], s.hz,
-                                               R(i - 1), IF i % 2 = 1 THEN R(KindOf(IF s.clone THEN s.kinds[1] ELSE s.kinds[i]).N) ELSE R(2), s.withInt)]),
+      sd(i) == StageDecl(IF s.clone THEN s.kinds[1] ELSE s.kinds[i], s.hz,
+                         R(i - 1), IF i % 2 = 1 THEN R(KindOf(IF s.clone THEN s.kinds[1] ELSE s.kinds[i]).N) ELSE R(2), s.withInt)
+  IN [stages |-> Tup([i \in 1..n |-> IF s.clone THEN ShiftParams(sd(i), i - 1) ELSE sd(i)]),
       pcons |-> Couple(s.pat, n), pobj |-> ParentObj(s.pat, n), clone |-> s.clone,
       \* history variant (C12.h): after a first transcription the stage-1 parameter (if any) is set again and stage 1 gets one more constraint
       reset |-> s.reset]
